@@ -264,3 +264,146 @@ Theorem C12_hist_record_ok_plain y iso :
 Proof. first [exact (@hh_record_ok_plain) | apply (@hh_record_ok_plain) | intros; eapply (@hh_record_ok_plain); eassumption]. Qed.
 
 End HybridHistories.
+
+(* Model/HybridParse.v: what open reconstructs of a hybrid image (IsoHybrid.parse, GPT parsers, the _open_fp hybrid block) composed with the HybridHist writer; Proofs/HybridHistRba.v: which entry feeds the MBR boot address.  *_old = rules before f7c6de3 / d0ed30b / 9b70343. *)
+From PV.Base Require Prim.
+From PV.Gen Require GenConst GenFun.
+From PV.Model Require Names Pack Alloc Codec Eltorito Account AccountLinks AccountBoot Hybrid HybridHist HybridParse.
+From PV.Proofs Require CodecProofs HybridProofs HybridHistProofs HybridHistRba HybridParseProofs.
+Section HybridReopen.
+Import PV.Base.Prim PV.Gen.GenConst PV.Gen.GenFun PV.Model.Names PV.Model.Pack PV.Model.Alloc PV.Model.Codec PV.Model.Eltorito PV.Model.Account PV.Model.AccountLinks PV.Model.AccountBoot PV.Model.Hybrid PV.Model.HybridHist PV.Model.HybridParse PV.Proofs.CodecProofs PV.Proofs.HybridProofs PV.Proofs.HybridHistProofs PV.Proofs.HybridHistRba PV.Proofs.HybridParseProofs.
+Local Open Scope Z_scope.
+Theorem C12_hist_rba_only_from_initial_entry_step s st (e : henc) :
+  let k := fst (snd e) in
+  let i := fst (snd (snd e)) in
+  let pf := fst (snd (snd (snd e))) in
+  (k <> 0%nat -> ih_rba (hy_ih (p_hy (push_step s st e))) = ih_rba (hy_ih (p_hy st))) /\
+  (k = 0%nat -> pf = 0 -> p_ok st = true -> AccountBoot.mem k (p_ents st) = false ->
+   ih_rba (hy_ih (p_hy (push_step s st e))) = rba_of s i * 4 /\
+   AccountBoot.mem 0%nat (p_ents (push_step s st e)) = true) /\
+  (AccountBoot.mem k (p_ents st) = true -> push_step s st e = st).
+Proof. first [exact (@hh_push_step_rba) | apply (@hh_push_step_rba) | intros; eapply (@hh_push_step_rba); eassumption]. Qed.
+
+Theorem C12_hist_rba_is_initial_entry :
+  all_acc w_second_section = true /\
+  let s := hrun hinit w_second_section in
+  entry_rbas (hb s) = [26; 27] /\
+  option_map v_rba (hybrid_view s) = Some (4 * nth 0 (entry_rbas (hb s)) 0).
+Proof. first [exact (@hh_rba_is_initial_entry) | apply (@hh_rba_is_initial_entry) | intros; eapply (@hh_rba_is_initial_entry); eassumption]. Qed.
+
+Theorem C12_hist_rba_is_initial_entry_old_refuted :
+  let s := hrun_old2 hinit w_second_section in
+  entry_rbas (hb s) = [26; 27] /\ option_map v_rba (hybrid_view s) = Some 108.
+Proof. first [exact (@hh_rba_is_initial_entry_old_refuted) | apply (@hh_rba_is_initial_entry_old_refuted) | intros; eapply (@hh_rba_is_initial_entry_old_refuted); eassumption]. Qed.
+
+Theorem C12_reopen_roundtrip_old y iso :
+  ih_wf (hy_ih y) -> ih_efi (hy_ih y) = false ->
+  ih_heads (hy_ih y) * ih_sectors (hy_ih y) * 512 <> 0 -> record_ok y iso = true ->
+  hp_reopen_old y iso =
+  OHy (mk_hy (ih_set_sectors (hy_ih y) (parsed_sectors (hy_ih y) iso)) (empty_gpt true) (empty_gpt false)).
+Proof. first [exact (@hp_reopen_roundtrip_old) | apply (@hp_reopen_roundtrip_old) | intros; eapply (@hp_reopen_roundtrip_old); eassumption]. Qed.
+
+Theorem C12_reopen_gives_the_written_hybrid y iso :
+  ih_wf (hy_ih y) -> ih_efi (hy_ih y) = false ->
+  1 <= ih_sectors (hy_ih y) <= 63 -> 1 <= ih_heads (hy_ih y) <= 256 -> 0 < iso -> record_ok y iso = true ->
+  hp_reopen y iso = OHy (mk_hy (hy_ih y) (empty_gpt true) (empty_gpt false)).
+Proof. first [exact (@hp_reopen_roundtrip) | apply (@hp_reopen_roundtrip) | intros; eapply (@hp_reopen_roundtrip); eassumption]. Qed.
+
+Theorem C12_written_hybrid_image_always_opens y iso :
+  ih_wf (hy_ih y) -> ih_efi (hy_ih y) = false ->
+  1 <= ih_sectors (hy_ih y) <= 63 -> 1 <= ih_heads (hy_ih y) <= 256 -> 0 < iso -> record_ok y iso = true ->
+  exists y', hp_reopen y iso = OHy y'.
+Proof. first [exact (@hp_reopen_always_opens) | apply (@hp_reopen_always_opens) | intros; eapply (@hp_reopen_always_opens); eassumption]. Qed.
+
+Theorem C12_open_write_is_a_fixpoint_for_hybrid y iso :
+  ih_wf (hy_ih y) -> ih_efi (hy_ih y) = false ->
+  1 <= ih_sectors (hy_ih y) <= 63 -> 1 <= ih_heads (hy_ih y) <= 256 -> 0 < iso -> record_ok y iso = true ->
+  forall y', hp_reopen y iso = OHy y' -> hy_record y' iso = hy_record y iso /\ image_len y' iso = image_len y iso.
+Proof. first [exact (@hp_rewrite_identical) | apply (@hp_rewrite_identical) | intros; eapply (@hp_rewrite_identical); eassumption]. Qed.
+
+Theorem C12_open_write_fixpoint_old_refuted :
+  reopened_geometry_old (mk_plain 1 1 32 64) 110592 = [64; 31; 0] /\
+  reopened_geometry_old (mk_plain 1 0 32 1) 5062656 = [1; 63; 0] /\
+  reopened_geometry_old (mk_plain 1 0 1 1) 655360 = [1; 4; 0] /\
+  reopened_geometry_old (mk_plain 1 0 32 64) 110592 = [64; 32; 1] /\
+  reopened_geometry_old (mk_plain 1 0 63 256) 110592 = [256; 63; 1] /\
+  reopened_geometry_old (mk_plain 1 0 63 255) 110592 = [255; 63; 1] /\
+  reopened_geometry_old (mk_plain 4 0 32 64) 110592 = [64; 32; 1].
+Proof. first [exact (@hp_rewrite_identical_old_refuted) | apply (@hp_rewrite_identical_old_refuted) | intros; eapply (@hp_rewrite_identical_old_refuted); eassumption]. Qed.
+
+Theorem C12_open_write_fixpoint_witnesses :
+  reopened_geometry (mk_plain 1 1 32 64) 110592 = [64; 32; 1] /\
+  reopened_geometry (mk_plain 1 0 32 1) 5062656 = [1; 32; 1] /\
+  reopened_geometry (mk_plain 1 0 1 1) 655360 = [1; 1; 1] /\
+  reopened_geometry (mk_plain 1 16 1 1) 110592 = [1; 1; 1] /\
+  reopened_geometry (mk_plain 1 0 63 256) 110592 = [256; 63; 1] /\
+  reopened_geometry (mk_plain 4 64 63 255) 110592 = [255; 63; 1].
+Proof. first [exact (@hp_rewrite_identical_witnesses) | apply (@hp_rewrite_identical_witnesses) | intros; eapply (@hp_rewrite_identical_witnesses); eassumption]. Qed.
+
+Theorem C12_reopened_zero_sectors_old :
+  match mk_plain 1 16 1 1 with
+  | Some y => match hp_reopen_old y 110592 with
+              | OHy y' => ih_sectors (hy_ih y') = 0 /\ hp_written y' 110592 = None
+              | _ => False
+              end
+  | None => False
+  end.
+Proof. first [exact (@hp_reopened_zero_sectors_old) | apply (@hp_reopened_zero_sectors_old) | intros; eapply (@hp_reopened_zero_sectors_old); eassumption]. Qed.
+
+Theorem C12_reopen_roundtrip_efi_mac :
+  open_fields (reopen_of w_two_names) = written_fields w_two_names /\
+  length (written_fields w_two_names) = 7%nat /\ rewrite_same_of w_two_names = true.
+Proof. first [exact (@hp_reopen_roundtrip_efi_mac) | apply (@hp_reopen_roundtrip_efi_mac) | intros; eapply (@hp_reopen_roundtrip_efi_mac); eassumption]. Qed.
+
+Theorem C12_reopen_no_active_entry_old :
+  let s := hrun_old2 hinit w_pe2_efi in
+  match hhyb s with Some y => hp_reopen y (iso_size_of s) = ORaise | None => False end.
+Proof. first [exact (@hp_reopen_no_active_entry_old) | apply (@hp_reopen_no_active_entry_old) | intros; eapply (@hp_reopen_no_active_entry_old); eassumption]. Qed.
+
+Theorem C12_part_entry_refused :
+  let pre := h_boot ++ h_efi n_efi ++ h_efi n_efi2 in
+  let s := hrun hinit pre in
+  map (fun o => out_code (snd (hstep s o)))
+      [HAddHybrid 2 7 0 32 64 None false (Some true) hh_noguid;
+       HAddHybrid 3 7 0 32 64 None true (Some true) hh_noguid;
+       HAddHybrid 0 7 0 32 64 None false None hh_noguid;
+       HAddHybrid 5 7 0 32 64 None false None hh_noguid;
+       HAddHybrid 3 7 0 32 64 None false (Some true) hh_noguid;
+       HAddHybrid 2 7 0 32 64 None false None hh_noguid] = [0; 0; 0; 0; 1; 1].
+Proof. first [exact (@hp_part_entry_refused) | apply (@hp_part_entry_refused) | intros; eapply (@hp_part_entry_refused); eassumption]. Qed.
+
+Theorem C12_hybrid_parse_rejects :
+  let b := mbr_bytes (mk_plain 1 0 32 64) 110592 in
+  hp_parse (repeat 0 32768) = HFalse /\                    (* a zero system area: not a hybrid *)
+  hp_parse (set_byte 0 0 b) = HFalse /\                    (* neither ORIG_HEADER nor MAC_AFP *)
+  hp_parse (firstn 511 b) = HRaise /\                      (* less than 512 bytes *)
+  hp_parse (set_byte 436 1 b) = HRaise /\                  (* unused1 <> 0 *)
+  hp_parse (set_byte 444 1 b) = HRaise /\                  (* unused2 <> 0 *)
+  hp_parse (set_byte 446 0 b) = HRaise /\                  (* no entry with 0x80 *)
+  hp_parse (set_byte 511 0 b) = HRaise /\                  (* tail is not 55 aa *)
+  (exists y, hp_parse b = HOk y).
+Proof. first [exact (@hp_parse_rejects) | apply (@hp_parse_rejects) | intros; eapply (@hp_parse_rejects); eassumption]. Qed.
+
+Theorem C12_plain_image_is_not_hybrid : forall n, hp_open (mk_img (repeat 0 32768) (-1) [] n) = ONone.
+Proof. first [exact (@hp_open_plain_image) | apply (@hp_open_plain_image) | intros; eapply (@hp_open_plain_image); eassumption]. Qed.
+
+Theorem C12_edit_after_reopen :
+  let s := hrun hinit w_two_names in
+  let s2 := hrun (set_hyb s (reopen_of w_two_names)) [HBase (BAddDir [] [68]); HWrite] in
+  entry_rbas (hb s2) = [27; 28; 30] /\
+  option_map v_rba (hybrid_view s2) = Some 108 /\
+  option_map v_efi (hybrid_view s2) = Some [112; 8] /\
+  option_map v_mac (hybrid_view s2) = Some [120; 12] /\
+  option_map (fun v => skipn 2 (v_pri_parts v)) (hybrid_view s2) = Some [112; 119; 120; 131] /\
+  option_map (fun v => skipn 2 (v_sec_parts v)) (hybrid_view s2) = Some [112; 119; 120; 131].
+Proof. first [exact (@hp_edit_after_reopen) | apply (@hp_edit_after_reopen) | intros; eapply (@hp_edit_after_reopen); eassumption]. Qed.
+
+Theorem C12_rm_add_after_reopen :
+  let s := hrun hinit w_two_names in
+  let s2 := hrun (set_hyb s (reopen_of w_two_names))
+                 [HRmHybrid; HAddHybrid 1 9 0 63 255 None false (Some true) hh_noguid; HWrite] in
+  option_map v_efi (hybrid_view s2) = Some [108; 8] /\ option_map v_mac (hybrid_view s2) = Some [] /\
+  option_map v_len (hybrid_view s2) = Some 8225280.
+Proof. first [exact (@hp_rm_add_after_reopen) | apply (@hp_rm_add_after_reopen) | intros; eapply (@hp_rm_add_after_reopen); eassumption]. Qed.
+
+End HybridReopen.
